@@ -14,6 +14,7 @@ from typing import Iterator, List
 from .gprog import NOFLAG, Edge, GNode, GProg, prio_menu, res_menu, seq_menu, shapes
 
 EDGE_KINDS = [("pos", ()), ("kw", ()), ("pos", (0,)), ("kw", ("k",)), ("flag", ()), ("flag", ("k", 1))]
+TUPLE_KEY = (("a", 1),)  # ONE key that is a tuple: r["a", 1] (not r["a"][1])
 
 
 def all_res(n: int):
@@ -91,6 +92,8 @@ def prog_of(c: dict) -> GProg:
             kw["debug"] = True
         if c.get("fn"):
             kw["fn"] = c["fn"][j]
+        elif c.get("names") == "rev":
+            kw["fn"] = f"m{n - 1 - j}"  # node names against dependency order (ids no longer sort topologically)
         if j in _keys(c.get("consts")):
             kw["consts"] = tuple(_get(c["consts"], j))
         if j in _keys(c.get("cflag")):
@@ -178,9 +181,11 @@ def cross_families(tier: str):
     # (a) constant activation flags x sequential x resources
     for n in (2, 3):
         for es in shapes(n):
-            for cf in cflag_variants(n)[1:n + 1]:
+            for cf in cflag_variants(n)[1:]:  # constant False and constant True flags
                 i = next(iter(cf))
                 for seq in ((False,) * n, tuple(j == i for j in range(n)), tuple(j != i for j in range(n))):
+                    if cf[i] is True and not seq[i]:
+                        continue
                     for res in ("t" * n, "a" * n, ("mt" * n)[:n], ("am" * n)[:n]):
                         for mc in (1, 2, 3):
                             yield dict(n=n, es=es, cflag=cf, seq=seq, res=res, mc=mc, prio=tuple(5 if j == i else 0 for j in range(n)),
@@ -206,6 +211,35 @@ def cross_families(tier: str):
     yield from conf_family(tier)
     yield from partial_conf_family(tier)
     yield from debug_selection_family(tier)
+    # (f) a DAG derived by compose(): node 0 becomes the input, the rest is kept (attributes must survive the derivation);
+    #     node names both in and against dependency order
+    for n in (3, 4):
+        for es in shapes(n):
+            if not es or (n == 4 and len(es) > (3 if q else 5)):
+                continue
+            for names in ("fwd", "rev"):
+                for seq in seq_menu(n)[:1] + [tuple(j == k for j in range(n)) for k in range(1, n)]:
+                    for prio in ((0,) * n, tuple(range(n)), tuple(3 if j == n - 1 else 0 for j in range(n))):
+                        for res in ("t" * n, ("ta" * n)[:n]):
+                            yield dict(n=n, es=es, seq=seq, prio=prio, res=res, mc=2, is_async=False, ties=0, composed=True, names=names)
+    # (f5) composed DAGs with a chain two levels deep below the input and an independent competitor (N=5)
+    for es in shapes(5):
+        if not (2 <= len(es) <= 3):
+            continue
+        inner = [(i, j) for (i, j) in es if i != 0]
+        if not any(b == c_ for (a, b) in inner for (c_, d_) in inner):
+            continue
+        for names in ("fwd", "rev"):
+            for prio in ((0, 0, 0, 5, 2), (0, 1, 0, 4, 3), (0, 2, 0, 0, 1)):
+                yield dict(n=5, es=es, seq=(False,) * 5, prio=prio, res="ttttt", mc=1, is_async=False, ties=0, composed=True, names=names)
+    # (g) a dependency delivered through ONE tuple key, r["a", 1]
+    for n in (2, 3):
+        for es in shapes(n):
+            if not es:
+                continue
+            es4 = [(i, j, "pos" if k % 2 == 0 else "kw", TUPLE_KEY) for k, (i, j) in enumerate(es)]
+            for res in ("t" * n, ("mt" * n)[:n]):
+                yield dict(n=n, es=es4, res=res, mc=2, is_async=False, ties=0)
     # (d) several flags taken from parts of one result, every subset of them falsy
     for n in (3, 4):
         for es in shapes(n):
